@@ -216,7 +216,7 @@ func TestVerifJustification(t *testing.T) {
 	rng := rand.New(rand.NewSource(vSeed()))
 	nOrders := 6
 	if vThorough() {
-		nOrders = 24
+		nOrders = 10
 	}
 	for _, b := range behs {
 		for ci, raw := range b.Steps {
